@@ -1,15 +1,29 @@
 (* UserDeleteNode on well-formed states.
-   The action runs five phases (Model/Edit.v, user_delete_node_core):
+   The action (Model/Edit.v, user_delete_node_core) validates the given pixels, then the node, and
+   then runs five phases:
      1. for the parent p of n: relabel the sibling when p divides, then DeleteEdge(p, n);
      2. for every child c of n: DeleteEdge(n, c);
      3. get_track_neighbors(track of n, time of n): when both neighbours exist, AddEdge(pred, succ);
      4. every detached child but the bridged one (and but the first one when n was a root)
         starts a new lineage;
      5. DeleteNode(n).
-   Proved here: on a state with W_dict, W_forest, W_trk, W_book the only step that can fail is the
-   last one (the frame of the pixels to clear does not exist); otherwise the result is a
+   Proved here: on a state with W_dict, W_forest, W_trk, W_book the only step after the validation
+   that can fail is the last one, and only when no pixels were given and the frame of the node's
+   own time is missing from the array (excluded by W_seg); otherwise the result is a
    forward-in-time binary forest on the nodes of st but n, whose edges are the edges of st that do
    not touch n, plus the bridge (p, c) when p is the non-dividing parent of n and c its only child.
+   Main statements:
+     udn_core_px_refused, udn_core_unknown, udn_core_spec, udn_core_ok_inv   what the core returns (sections 3, 4);
+     udn_core_errors, udn_refused_unchanged(_wseg), udn_late_error_mutates   the refusals: bad pixels,
+        then an unknown node, leave the state alone; the only error behind a mutated state is the
+        IndexError of DeleteNode computing the pixels of a node whose frame is missing;
+     udn_keeps_forest, udn_keeps_dict, udn_top_refused_unchanged(_wseg), udn_top_errors, udn_accepted_iff,
+        udn_top_history   the public entry point (section 5);
+     udn_core_ids, udn_core_keeps_book / _trk / _lin, udn_core_GWF, udn_GWF, udn_WF_accepted,
+        udn_core_id_frame, udn_id_frame   W_trk, W_lin, W_book are kept, in the configuration cfg_ok (section 6).
+   W_trk and W_book are needed for the forest statement: Proofs/EditUDNExample.v has a state with a
+   stale lookup on which the action fails half-way, and one with a wrong track id on which it
+   returns a node with two parents.
    No axioms are used. *)
 From Coq Require Import ZArith List Bool Lia Relations Permutation.
 From FT Require Import Base.Dict Model.Edit Proofs.DictLemmas Proofs.EditInv Proofs.EditGraph Proofs.EditWalk
@@ -258,4 +272,1048 @@ Proof.
       cbn [bind]. rewrite H1. cbn [bind udn_preds].
       eexists _, s1. split; [reflexivity|]. split; [exact Hd1|]. split; [exact Hf1|]. split; [exact G1|].
       split; [exact E1|]. split; [exact S1|]. split; [apply A1|]. intros T _. now rewrite B1.
+Qed.
+
+(* ================================================================== *)
+(* 3. the action: everything before DeleteNode, then DeleteNode         *)
+(* ================================================================== *)
+Definition udn_prefix st n : res (list action) :=
+  let preds := predecessors st n in
+  let had_pred := match preds with [] => false | _ => true end in
+  do acts1, s <- udn_preds n preds st [];
+  let orphans := successors s n in
+  do acts2, s <- udn_succs n orphans s acts1;
+  do ao, s <- (match zattr s n KTrack with
+      | None => Err EKey s
+      | Some T => let '(s, (p, c)) := track_neighbors s T (time_of s n) in
+                  match p, c with
+                  | Some p, Some c => do b, s <- do_add_edge s p c []; Ok (acts2 ++ [ABasic b], filter (fun o => negb (o =? c)) orphans) s
+                  | _, _ => Ok (acts2, orphans) s end
+      end);
+  let '(acts3, orphans) := ao in
+  let orphans := if had_pred then orphans else tl orphans in
+  udn_orphans orphans s acts3.
+
+Lemma udn_core_unfold st n pxo : user_delete_node_core st n pxo =
+  match px_check st pxo with
+  | Some e => Err e st
+  | None =>
+    if negb (has_node st n) then Err ENetworkX st else
+    do acts4, s <- udn_prefix st n; do b, s <- do_del_node s n pxo; Ok (AGroup (acts4 ++ [ABasic b])) s
+  end.
+Proof.
+  unfold user_delete_node_core, udn_prefix. destruct (px_check st pxo); [reflexivity|].
+  destruct (negb (has_node st n)); [reflexivity|]. cbv zeta.
+  destruct (udn_preds n (predecessors st n) st []) as [a1 s1|e1 s1]; cbn [bind]; [|reflexivity].
+  destruct (udn_succs n (successors s1 n) s1 a1) as [a2 s2|e2 s2]; cbn [bind]; [|reflexivity].
+  destruct (zattr s2 n KTrack) as [T|]; cbn [bind]; [|reflexivity].
+  destruct (track_neighbors s2 T (time_of s2 n)) as [s3 [[p|] [c|]]]; cbn [bind]; try reflexivity.
+  destruct (do_add_edge s3 p c []) as [b s3'|e s3']; cbn [bind]; reflexivity.
+Qed.
+
+(* the bridge: p is the non-dividing parent of n and c its only child *)
+Definition udn_bridge st n p c : Prop := edge st p n /\ ~ divides st p /\ successors st n = [c].
+
+Lemma edge_irrefl st u : W_forest st -> ~ edge st u u.
+Proof. intros Hf H. pose proof (wf_time _ Hf u u H). lia. Qed.
+
+Lemma gstep_same_g s s' : g s' = g s -> seg s' = seg s -> ft s' = ft s -> undo_stack s' = undo_stack s ->
+  redo_stack s' = redo_stack s -> rlog s' = rlog s -> nctr s' = nctr s -> gstep s s'.
+Proof.
+  intros Eg Es Ef Eu Er El En. constructor; try assumption.
+  - unfold node_ids. now rewrite Eg.
+  - intros m j _ _. unfold attr, node_attrs. now rewrite Eg.
+Qed.
+
+(* the track id of n is not the one of a dividing parent, nor the one of the sibling *)
+Lemma udn_T_other st n T : W_dict st -> W_forest st -> W_trk st -> trk st n = Some T ->
+  forall p, edge st p n -> divides st p ->
+    trk st p <> Some T /\ forall sib, edge st p sib -> sib <> n -> trk st sib <> Some T.
+Proof.
+  intros Hd Hf Ht En p Hp Dp.
+  assert (Nn : is_node st n) by apply (wd_edge_nodes _ Hd p n Hp).
+  assert (Hn : head st n).
+  { split; [exact Nn|]. intros q Hq. now rewrite (wf_in _ Hf q p n Hq Hp). }
+  split.
+  - intros Ep. destruct (seg_head st Hd Hf (wt1 _ Ht) p (proj1 (wd_edge_nodes _ Hd p n Hp))) as (h & Hh & Eh & Lh).
+    assert (h = n) as -> by (apply (wt2 _ Ht h n Hh Hn); congruence).
+    pose proof (wf_time _ Hf p n Hp). lia.
+  - intros sib Hs Hne Es. apply Hne. apply (wt2 _ Ht sib n); [|exact Hn|congruence].
+    split; [apply (wd_edge_nodes _ Hd p sib Hs)|]. intros q Hq. now rewrite (wf_in _ Hf q p sib Hq Hs).
+Qed.
+
+Theorem udn_prefix_spec st n : W_dict st -> W_forest st -> W_trk st -> W_book st -> is_node st n ->
+  exists acts s4, udn_prefix st n = Ok acts s4 /\ W_dict s4 /\ W_forest s4 /\ gstep st s4 /\
+    (forall x y, edge s4 x y <-> (edge st x y /\ x <> n /\ y <> n) \/ udn_bridge st n x y).
+Proof.
+  intros Hd Hf Ht Wb Nn. unfold udn_prefix. cbv zeta.
+  (* phase 1 *)
+  destruct (udn_preds_spec st n Hd Hf Nn) as (acts1 & s1 & H1 & Hd1 & Hf1 & G1 & E1 & S1 & A1 & B1).
+  rewrite H1. cbn [bind].
+  (* phase 2 *)
+  assert (Ecs : successors s1 n = successors st n).
+  { rewrite S1. apply filter_neq_notin. intros Hi. apply edge_successors in Hi. exact (edge_irrefl st n Hf Hi). }
+  rewrite Ecs.
+  destruct (udn_succs_spec n (successors st n) s1 acts1 Hd1 Hf1 (wd_adj_nodup _ Hd n)) as (acts2 & s2 & H2 & Hd2 & Hf2 & Hn2 & Ha2 & Hr2 & E2 & S2).
+  { intros c Hc. apply E1. split; [now apply edge_successors|]. intros ->. apply edge_successors in Hc. exact (edge_irrefl st n Hf Hc). }
+  rewrite H2. cbn [bind].
+  assert (G2 : gstep st s2) by (eapply gstep_trans; [exact G1|now apply rest_eq_gstep]).
+  assert (E2' : forall x y, edge s2 x y <-> edge st x y /\ x <> n /\ y <> n).
+  { intros x y. rewrite E2, E1, <- edge_successors. split.
+    - intros [[A B] C]. split; [exact A|split; [|exact B]]. intros ->. apply C. now split.
+    - intros (A & B & C). split; [now split|]. intros [D _]. contradiction. }
+  (* phase 3 *)
+  destruct (wd_track _ Hd n Nn) as [T ET]. assert (En : trk st n = Some T) by (now apply zattr_attr).
+  assert (En2 : zattr s2 n KTrack = Some T) by (apply zattr_attr; now rewrite Ha2, A1).
+  rewrite En2.
+  destruct (track_neighbors s2 T (time_of s2 n)) as [s3 [p' c']] eqn:Etn.
+  assert (Esnd : snd (track_neighbors st T (time_of st n)) = (p', c')).
+  { rewrite <- (gstep_time _ _ n G2). rewrite <- (track_neighbors_ext st s2 T (time_of s2 n)); [now rewrite Etn| |intros m; apply (gstep_time _ _ m G2)].
+    destruct Hr2 as (_ & _ & Eb & _). rewrite Eb. apply B1. now apply udn_T_other. }
+  destruct (neighbors_of_node st n T p' c' Hd Hf Ht Wb En Esnd) as [HP HC].
+  pose proof (track_neighbors_state s2 T (time_of s2 n)) as F3. rewrite Etn in F3. cbv zeta in F3. cbn [fst] in F3.
+  destruct F3 as (Eg3 & Es3 & Ef3 & Eu3 & Er3 & El3 & Ec3 & _).
+  assert (Hd3 : W_dict s3) by (now apply (EditBook.W_dict_same_g s2)).
+  assert (Hf3 : W_forest s3) by (now apply (W_forest_same_g s2)).
+  assert (G3 : gstep st s3) by (eapply gstep_trans; [exact G2|now apply gstep_same_g]).
+  assert (E3 : forall x y, edge s3 x y <-> edge st x y /\ x <> n /\ y <> n).
+  { intros x y. rewrite (EditLin.edge_same_g s2 s3 x y Eg3). apply E2'. }
+  assert (S3 : forall x, x <> n -> successors s3 x = filter (fun y => negb (n =? y)) (successors st x)).
+  { intros x Hx. rewrite (EditLin.successors_same_g s2 s3 x Eg3), (S2 x Hx). apply S1. }
+  assert (Hcs : forall o, In o (successors st n) -> is_node s3 o).
+  { intros o Ho. apply (gstep_is_node _ _ _ G3). apply (wd_edge_nodes _ Hd n o). now apply edge_successors. }
+  assert (Hnobridge : (forall pp cc, ~ (p' = Some pp /\ c' = Some cc)) ->
+            forall os, (forall o, In o os -> In o (successors st n)) ->
+            exists acts s4, udn_orphans os s3 acts2 = Ok acts s4 /\ W_dict s4 /\ W_forest s4 /\ gstep st s4 /\
+              (forall x y, edge s4 x y <-> (edge st x y /\ x <> n /\ y <> n) \/ udn_bridge st n x y)).
+  { intros Hno os Hos.
+    destruct (udn_orphans_spec os s3 acts2 Hd3 Hf3) as (acts & s4 & H4 & Hd4 & Hf4 & G4 & E4 & _).
+    { intros o Ho. apply Hcs. now apply Hos. }
+    exists acts, s4. split; [exact H4|]. split; [exact Hd4|]. split; [exact Hf4|]. split; [eapply gstep_trans; eauto|].
+    intros x y. rewrite E4, E3. split; [now left|]. intros [A|(B1' & B2' & B3')]; [exact A|].
+    exfalso. apply (Hno x y). split; [apply HP; now split|now apply HC]. }
+  assert (Htl : forall (l : list Z) o, In o (if match predecessors st n with [] => false | _ :: _ => true end then l else tl l) -> In o l).
+  { intros l o. destruct (predecessors st n); [destruct l; [tauto|now right]|tauto]. }
+  destruct p' as [pp|]; destruct c' as [cc|];
+    try (cbn [bind]; apply Hnobridge; [intros pp0 cc0 [X Y]; discriminate|intros o Ho; now apply Htl in Ho]).
+  (* both neighbours exist: the bridge *)
+  destruct (proj1 (HP pp) eq_refl) as [Hpn Hnd]. pose proof (proj1 (HC cc) eq_refl) as Hsn.
+  assert (Hnc : edge st n cc) by (apply edge_successors; rewrite Hsn; now left).
+  assert (Hppn : pp <> n) by (intros ->; exact (edge_irrefl st n Hf Hpn)).
+  assert (Hccn : cc <> n) by (intros ->; exact (edge_irrefl st n Hf Hnc)).
+  assert (Npp : is_node s3 pp) by (apply (gstep_is_node _ _ _ G3); apply (wd_edge_nodes _ Hd pp n Hpn)).
+  assert (Ncc : is_node s3 cc) by (apply (gstep_is_node _ _ _ G3); apply (wd_edge_nodes _ Hd n cc Hnc)).
+  destruct (do_add_edge_spec s3 pp cc [] Npp Ncc) as (b & s3' & H3 & _). rewrite H3. cbn [bind].
+  destruct (do_add_edge_WS s3 pp cc [] b s3' Hd3 Hf3 H3) as (Hd3' & Hf3' & E3' & N3' & A3' & R3').
+  { rewrite !(gstep_time _ _ _ G3). pose proof (wf_time _ Hf _ _ Hpn). pose proof (wf_time _ Hf _ _ Hnc). lia. }
+  { intros q Hq. apply E3 in Hq. destruct Hq as (Hq & Hqn & _). exfalso. apply Hqn. exact (wf_in _ Hf q n cc Hq Hnc). }
+  { right. rewrite (S3 pp Hppn), (not_divides_single st pp n Hpn Hnd). cbn. rewrite Z.eqb_refl. cbn. lia. }
+  rewrite Hsn. cbn [filter]. rewrite Z.eqb_refl. cbn [negb].
+  assert (Enil : (if match predecessors st n with [] => false | _ :: _ => true end then @nil Z else tl []) = []) by (destruct (predecessors st n); reflexivity).
+  rewrite Enil. cbn [udn_orphans].
+  eexists _, s3'. split; [reflexivity|]. split; [exact Hd3'|]. split; [exact Hf3'|].
+  split; [eapply gstep_trans; [exact G3|now apply rest_eq_gstep]|].
+  intros x y. rewrite E3', E3. unfold udn_bridge. split.
+  - intros [A|[-> ->]]; [now left|right]. split; [exact Hpn|split; [exact Hnd|exact Hsn]].
+  - intros [A|(B1' & B2' & B3')]; [now left|right]. split; [|congruence]. exact (wf_in _ Hf x pp n B1' Hpn).
+Qed.
+
+(* ---- the pixels DeleteNode clears are those of the original state ---- *)
+Lemma del_px_gstep st s n pxo : gstep st s -> del_px s n pxo = del_px st n pxo.
+Proof.
+  intros G. unfold del_px, get_pixels. destruct pxo; [reflexivity|]. now rewrite (gs_seg _ _ G), (gstep_time _ _ n G).
+Qed.
+Lemma px_ok_seg st s px : seg s = seg st -> (px_ok s px <-> px_ok st px).
+Proof. intros E. unfold px_ok. destruct px; [now rewrite E|tauto]. Qed.
+Lemma seg_after_seg st s px v : seg s = seg st -> seg_after s px v = seg_after st px v.
+Proof. intros E. unfold seg_after. now rewrite E. Qed.
+Lemma gstep_hist st s : gstep st s -> hist_eq st s.
+Proof. intros G. unfold hist_eq. repeat split; apply G. Qed.
+
+Lemma bridge_ends st n x y : W_forest st -> udn_bridge st n x y -> x <> n /\ y <> n /\ x <> y.
+Proof.
+  intros Hf (A & _ & C). assert (Hny : edge st n y) by (apply edge_successors; rewrite C; now left).
+  pose proof (wf_time _ Hf _ _ A). pose proof (wf_time _ Hf _ _ Hny).
+  split; [intros ->; lia|split; [intros ->; lia|intros ->; lia]].
+Qed.
+
+(* ================================================================== *)
+(* 4. the specification of the core                                     *)
+(* ================================================================== *)
+(* ---- the validation of the pixels, which the action runs first ---- *)
+Lemma px_check_ok st px : px_check st px = None <-> px_ok st px.
+Proof.
+  unfold px_check, px_ok. destruct px as [p|]; [|tauto]. destruct (seg st) as [sg|].
+  - destruct (frame_ok sg (fst p)) eqn:Ef; split; try discriminate; try reflexivity.
+    + intros _. now exists sg.
+    + intros (sg' & E & F). injection E as <-. congruence.
+  - split; [discriminate|intros (sg' & E & _); discriminate].
+Qed.
+Lemma px_check_err st px e : px_check st px = Some e ->
+  exists p, px = Some p /\ ((e = EValue /\ seg st = None) \/
+                           (e = EIndex /\ exists sg, seg st = Some sg /\ frame_ok sg (fst p) = false)).
+Proof.
+  unfold px_check. destruct px as [p|]; [|discriminate]. intros H. exists p. split; [reflexivity|].
+  destruct (seg st) as [sg|]; [|injection H as <-; now left].
+  destruct (frame_ok sg (fst p)) eqn:Ef; [discriminate|]. injection H as <-. right. split; [reflexivity|now exists sg].
+Qed.
+(* the pixels DeleteNode will clear are acceptable: the given ones pass the validation, and when
+   none are given the node's own frame exists *)
+Lemma px_ok_del_px st n pxo : px_ok st (del_px st n pxo) <-> px_check st pxo = None /\ (pxo = None -> px_ok st (get_pixels st n)).
+Proof.
+  rewrite px_check_ok. unfold del_px. destruct pxo as [p|].
+  - split; [intros H; split; [exact H|discriminate]|tauto].
+  - split; [intros H; split; [exact I|now intros _]|intros [_ H]; now apply H].
+Qed.
+
+(* unacceptable pixels are refused before anything is touched (no invariant needed) *)
+Theorem udn_core_px_refused st n pxo e : px_check st pxo = Some e -> user_delete_node_core st n pxo = Err e st.
+Proof. intros H. unfold user_delete_node_core. now rewrite H. Qed.
+(* then an unknown node is refused, again with the untouched state (no invariant needed) *)
+Theorem udn_core_unknown st n pxo : px_check st pxo = None -> ~ is_node st n ->
+  user_delete_node_core st n pxo = Err ENetworkX st.
+Proof. intros Hc Hn. unfold user_delete_node_core. apply has_node_false in Hn. now rewrite Hc, Hn. Qed.
+
+(* an accepted call has passed both checks and is the prefix followed by DeleteNode *)
+Lemma udn_core_ok_unfold st n pxo a st' : user_delete_node_core st n pxo = Ok a st' ->
+  px_check st pxo = None /\ is_node st n /\
+  exists acts s4 b, udn_prefix st n = Ok acts s4 /\ do_del_node s4 n pxo = Ok b st'.
+Proof.
+  rewrite udn_core_unfold. destruct (px_check st pxo); [discriminate|]. destruct (has_node st n) eqn:En; [|discriminate].
+  cbn [negb]. destruct (udn_prefix st n) as [acts s4|e s4] eqn:E4; cbn [bind]; [|discriminate].
+  destruct (do_del_node s4 n pxo) as [b s5|e s5] eqn:E5; cbn [bind]; [|discriminate]. intros H. injection H as _ <-.
+  split; [reflexivity|]. split; [now apply has_node_is_node|]. exists acts, s4, b. split; [reflexivity|exact E5].
+Qed.
+
+(* what the core returns on a node of a well-formed state once the pixels passed the validation:
+   [do_del_node] applied to the state s4 in which n is isolated and its track neighbours bridged *)
+Lemma udn_core_run st n pxo : W_dict st -> W_forest st -> W_trk st -> W_book st -> px_check st pxo = None -> is_node st n ->
+  exists acts s4, W_dict s4 /\ W_forest s4 /\ gstep st s4 /\
+    (forall x y, edge s4 x y <-> (edge st x y /\ x <> n /\ y <> n) \/ udn_bridge st n x y) /\
+    user_delete_node_core st n pxo = (do b, s <- do_del_node s4 n pxo; Ok (AGroup (acts ++ [ABasic b])) s).
+Proof.
+  intros Hd Hf Ht Wb Hc Nn. destruct (udn_prefix_spec st n Hd Hf Ht Wb Nn) as (acts & s4 & H & Hd4 & Hf4 & G4 & E4).
+  exists acts, s4. split; [exact Hd4|]. split; [exact Hf4|]. split; [exact G4|]. split; [exact E4|].
+  rewrite udn_core_unfold. apply has_node_is_node in Nn. rewrite Hc, Nn, H. reflexivity.
+Qed.
+
+Theorem udn_core_spec st n pxo : W_dict st -> W_forest st -> W_trk st -> W_book st ->
+  (forall e, px_check st pxo = Some e -> user_delete_node_core st n pxo = Err e st) /\
+  (px_check st pxo = None -> ~ is_node st n -> user_delete_node_core st n pxo = Err ENetworkX st) /\
+  (is_node st n -> px_ok st (del_px st n pxo) ->
+     exists a st', user_delete_node_core st n pxo = Ok a st' /\ W_dict st' /\ W_forest st' /\
+       (forall x, is_node st' x <-> is_node st x /\ x <> n) /\
+       (forall x y, edge st' x y <-> (edge st x y /\ x <> n /\ y <> n) \/ udn_bridge st n x y) /\
+       (forall m k, m <> n -> k <> KTrack -> k <> KLin -> attr st' m k = attr st m k) /\
+       (forall m, m <> n -> time_of st' m = time_of st m) /\
+       seg st' = seg_after st (del_px st n pxo) 0 /\ hist_eq st st').
+Proof.
+  intros Hd Hf Ht Wb. split; [intros e; apply udn_core_px_refused|]. split; [apply udn_core_unknown|]. intros Nn Hpx.
+  assert (Hc : px_check st pxo = None) by (now apply (px_ok_del_px st n pxo)).
+  destruct (udn_core_run st n pxo Hd Hf Ht Wb Hc Nn) as (acts & s4 & Hd4 & Hf4 & G4 & E4 & Hrun).
+  assert (Nn4 : is_node s4 n) by (now apply (gstep_is_node _ _ _ G4)).
+  assert (Hpx4 : px_ok s4 (del_px s4 n pxo)).
+  { rewrite (del_px_gstep st s4 n pxo G4). apply (px_ok_seg st s4 _ (gs_seg _ _ G4)). exact Hpx. }
+  destruct (do_del_node_ok s4 n pxo Nn4 Hpx4) as (b & st' & H5).
+  destruct (do_del_node_WS s4 n pxo b st' Hd4 Hf4 H5) as (Hd' & Hf' & N' & E' & _ & A' & T' & _ & _ & S' & Hh' & _).
+  rewrite Hrun, H5. cbn [bind]. eexists _, st'. split; [reflexivity|]. split; [exact Hd'|]. split; [exact Hf'|].
+  split; [intros x; now rewrite N', (gstep_is_node _ _ x G4)|]. split; [|split; [|split; [|split]]].
+  - intros x y. rewrite E', E4. split.
+    + intros [[A|A] _]; [now left|now right].
+    + intros [A|A]; [split; [now left|tauto]|]. destruct (bridge_ends st n x y Hf A) as (X & Y & _). split; [now right|now split].
+  - intros m k Hm H1 H2. now rewrite (A' m k Hm), (gs_attr _ _ G4).
+  - intros m Hm. now rewrite (T' m Hm), (gstep_time _ _ m G4).
+  - rewrite S', (del_px_gstep st s4 n pxo G4). apply seg_after_seg. apply (gs_seg _ _ G4).
+  - eapply hist_eq_trans; [apply gstep_hist; exact G4|exact Hh'].
+Qed.
+
+(* ---- refusals ---- *)
+(* every way the core can fail on a well-formed state:
+   (1) the given pixels fail the validation: refused first, nothing touched;
+   (2) the node is unknown: refused next, nothing touched;
+   (3) no pixels were given and the frame of the node's own time does not exist in the array (a state
+       that violates W_seg): IndexError in the last sub-action, after the edges of n were cut; the
+       state behind the error is the one with n isolated *)
+Theorem udn_core_errors st n pxo e st' : W_dict st -> W_forest st -> W_trk st -> W_book st ->
+  user_delete_node_core st n pxo = Err e st' ->
+  (px_check st pxo = Some e /\ st' = st) \/
+  (px_check st pxo = None /\ ~ is_node st n /\ e = ENetworkX /\ st' = st) \/
+  (is_node st n /\ pxo = None /\ ~ px_ok st (get_pixels st n) /\ e = EIndex /\
+   W_dict st' /\ W_forest st' /\ gstep st st' /\
+   (forall x y, edge st' x y <-> (edge st x y /\ x <> n /\ y <> n) \/ udn_bridge st n x y)).
+Proof.
+  intros Hd Hf Ht Wb H. destruct (px_check st pxo) as [e0|] eqn:Hc.
+  { left. rewrite (udn_core_px_refused st n pxo e0 Hc) in H. injection H as <- <-. auto. }
+  right. destruct (has_node st n) eqn:En.
+  - right. apply has_node_is_node in En.
+    destruct (udn_core_run st n pxo Hd Hf Ht Wb Hc En) as (acts & s4 & Hd4 & Hf4 & G4 & E4 & Hrun).
+    rewrite Hrun in H. destruct (do_del_node s4 n pxo) as [b s5|e5 s5] eqn:H5; cbn [bind] in H; [discriminate|].
+    injection H as <- <-.
+    assert (Nn4 : is_node s4 n) by (now apply (gstep_is_node _ _ _ G4)).
+    destruct (do_del_node_err s4 n pxo e5 s5 Nn4 H5) as (-> & Hpx & He).
+    assert (Hpx0 : ~ px_ok st (del_px st n pxo)).
+    { intros C. apply Hpx. rewrite (del_px_gstep st s4 n pxo G4). now apply (px_ok_seg st s4 _ (gs_seg _ _ G4)). }
+    assert (Hnone : pxo = None).
+    { destruct pxo as [p|]; [|reflexivity]. exfalso. apply Hpx0. cbn [del_px]. now apply px_check_ok. }
+    subst pxo. split; [exact En|]. split; [reflexivity|]. split; [exact Hpx0|].
+    split; [destruct He as [He|(_ & _ & C)]; [exact He|now contradiction C]|]. auto.
+  - left. apply has_node_false in En. rewrite (udn_core_unknown st n pxo Hc En) in H. injection H as <- <-. auto.
+Qed.
+
+(* C11 for the core: when the node's own frame exists (W_seg gives it), EVERY error leaves the state alone *)
+Theorem udn_refused_unchanged st n pxo e st' : W_dict st -> W_forest st -> W_trk st -> W_book st ->
+  (is_node st n -> px_ok st (get_pixels st n)) ->
+  user_delete_node_core st n pxo = Err e st' ->
+  st' = st /\ (px_check st pxo = Some e \/ (px_check st pxo = None /\ e = ENetworkX /\ ~ is_node st n)).
+Proof.
+  intros Hd Hf Ht Wb Hpx H. destruct (udn_core_errors st n pxo e st' Hd Hf Ht Wb H) as [(A & B)|[(A & B & C & D)|(A & _ & B & _)]].
+  - auto.
+  - split; [exact D|]. right. auto.
+  - exfalso. apply B. now apply Hpx.
+Qed.
+
+Lemma W_seg_own_frame st n : W_seg st -> is_node st n -> px_ok st (get_pixels st n).
+Proof.
+  intros Ws Nn. unfold get_pixels, W_seg in *. destruct (seg st) as [sg|] eqn:Es; [|exact I].
+  cbn. exists sg. split; [exact Es|]. destruct Ws as (A & _). now apply A.
+Qed.
+
+Corollary udn_refused_unchanged_wseg st n pxo e st' : W_dict st -> W_forest st -> W_trk st -> W_book st -> W_seg st ->
+  user_delete_node_core st n pxo = Err e st' ->
+  st' = st /\ (px_check st pxo = Some e \/ (px_check st pxo = None /\ e = ENetworkX /\ ~ is_node st n)).
+Proof. intros Hd Hf Ht Wb Ws. apply udn_refused_unchanged; auto. now apply W_seg_own_frame. Qed.
+
+(* the two early refusals need no invariant *)
+Theorem udn_unknown_unchanged st n pxo e st' : ~ is_node st n ->
+  user_delete_node_core st n pxo = Err e st' -> st' = st /\ (px_check st pxo = Some e \/ e = ENetworkX).
+Proof.
+  intros Hn H. destruct (px_check st pxo) as [e0|] eqn:Hc.
+  - rewrite (udn_core_px_refused st n pxo e0 Hc) in H. injection H as <- <-. auto.
+  - rewrite (udn_core_unknown st n pxo Hc Hn) in H. injection H as <- <-. auto.
+Qed.
+
+(* the one late failure left (no pixels given, the node's own frame missing) is not a refusal:
+   a node with a neighbour has lost it behind the error *)
+Theorem udn_late_error_mutates st n pxo e st' : W_dict st -> W_forest st -> W_trk st -> W_book st ->
+  is_node st n -> px_check st pxo = None -> user_delete_node_core st n pxo = Err e st' ->
+  pxo = None /\ ~ px_ok st (get_pixels st n) /\ e = EIndex /\
+  (forall q, edge st q n -> ~ edge st' q n) /\ (forall c, edge st n c -> ~ edge st' n c).
+Proof.
+  intros Hd Hf Ht Wb Nn Hc H.
+  destruct (udn_core_errors st n pxo e st' Hd Hf Ht Wb H) as [(A & _)|[(_ & A & _)|(_ & P & Q & R & _ & _ & _ & E)]]; [congruence|contradiction|].
+  split; [exact P|]. split; [exact Q|]. split; [exact R|].
+  split; intros x Hx C; apply E in C; destruct C as [(_ & A & B)|B]; try congruence;
+    destruct (bridge_ends st n _ _ Hf B) as (X & Y & _); congruence.
+Qed.
+
+(* ---- success, read backwards ---- *)
+Theorem udn_core_ok_inv st n pxo a st' : W_dict st -> W_forest st -> W_trk st -> W_book st ->
+  user_delete_node_core st n pxo = Ok a st' ->
+  is_node st n /\ px_ok st (del_px st n pxo) /\ W_dict st' /\ W_forest st' /\
+  (forall x, is_node st' x <-> is_node st x /\ x <> n) /\
+  (forall x y, edge st' x y <-> (edge st x y /\ x <> n /\ y <> n) \/ udn_bridge st n x y) /\
+  (forall m k, m <> n -> k <> KTrack -> k <> KLin -> attr st' m k = attr st m k) /\
+  (forall m, m <> n -> time_of st' m = time_of st m) /\
+  seg st' = seg_after st (del_px st n pxo) 0 /\ hist_eq st st'.
+Proof.
+  intros Hd Hf Ht Wb H. destruct (udn_core_ok_unfold st n pxo a st' H) as (Hc & Nn & _).
+  assert (Hpx : px_ok st (del_px st n pxo)).
+  { destruct (udn_core_run st n pxo Hd Hf Ht Wb Hc Nn) as (acts & s4 & Hd4 & Hf4 & G4 & E4 & Hrun).
+    rewrite Hrun in H. destruct (do_del_node s4 n pxo) as [b s5|e5 s5] eqn:H5; cbn [bind] in H; [|discriminate].
+    assert (X : exists b st', do_del_node s4 n pxo = Ok b st') by eauto. apply do_del_node_ok_iff in X. destruct X as [_ X].
+    rewrite (del_px_gstep st s4 n pxo G4) in X. now apply (px_ok_seg st s4 _ (gs_seg _ _ G4)). }
+  destruct (proj2 (proj2 (udn_core_spec st n pxo Hd Hf Ht Wb)) Nn Hpx) as (a0 & s0 & H0 & R). rewrite H in H0. injection H0 as <- <-.
+  split; [exact Nn|]. split; [exact Hpx|exact R].
+Qed.
+
+Corollary udn_core_keeps_dict st n pxo a st' : W_dict st -> W_forest st -> W_trk st -> W_book st ->
+  user_delete_node_core st n pxo = Ok a st' -> W_dict st'.
+Proof. intros Hd Hf Ht Wb H. apply (udn_core_ok_inv st n pxo a st' Hd Hf Ht Wb H). Qed.
+Corollary udn_core_keeps_forest st n pxo a st' : W_dict st -> W_forest st -> W_trk st -> W_book st ->
+  user_delete_node_core st n pxo = Ok a st' -> W_dict st' /\ W_forest st'.
+Proof. intros Hd Hf Ht Wb H. destruct (udn_core_ok_inv st n pxo a st' Hd Hf Ht Wb H) as (_ & _ & A & B & _). now split. Qed.
+
+(* ================================================================== *)
+(* 5. the public entry point (history and refresh signal on top)        *)
+(* ================================================================== *)
+Lemma finish_top_fields s a p : g (finish_top s a p) = g s /\ seg (finish_top s a p) = seg s /\
+  ft (finish_top s a p) = ft s /\ bk (finish_top s a p) = bk s /\ nctr (finish_top s a p) = nctr s.
+Proof. unfold finish_top, emit, hist_add. destruct (redo_stack s); cbn; repeat split; reflexivity. Qed.
+
+Lemma udn_top_inv st n pxo top a st' : user_delete_node st n pxo top = Ok a st' ->
+  exists s, user_delete_node_core st n pxo = Ok a s /\ st' = (if top then finish_top s a None else s).
+Proof.
+  unfold user_delete_node, top_wrap. destruct (user_delete_node_core st n pxo) as [a0 s0|e0 s0]; [|discriminate].
+  intros H. injection H as <- <-. now exists s0.
+Qed.
+Lemma udn_top_err st n pxo top e st' : user_delete_node st n pxo top = Err e st' <-> user_delete_node_core st n pxo = Err e st'.
+Proof.
+  unfold user_delete_node, top_wrap. destruct (user_delete_node_core st n pxo) as [a0 s0|e0 s0]; [split; discriminate|tauto].
+Qed.
+
+(* C03 for UserDeleteNode: an accepted deletion keeps the forest; the node set and the edge set are the expected ones *)
+Theorem udn_keeps_forest st n pxo top a st' : W_dict st -> W_forest st -> W_trk st -> W_book st ->
+  user_delete_node st n pxo top = Ok a st' ->
+  W_dict st' /\ W_forest st' /\
+  (forall x, is_node st' x <-> is_node st x /\ x <> n) /\
+  (forall x y, edge st' x y <-> (edge st x y /\ x <> n /\ y <> n) \/ udn_bridge st n x y) /\
+  (forall m k, m <> n -> k <> KTrack -> k <> KLin -> attr st' m k = attr st m k) /\
+  (forall m, m <> n -> time_of st' m = time_of st m) /\
+  seg st' = seg_after st (del_px st n pxo) 0 /\ ft st' = ft st /\ nctr st' = nctr st.
+Proof.
+  intros Hd Hf Ht Wb H. destruct (udn_top_inv st n pxo top a st' H) as (s & Hc & ->).
+  destruct (udn_core_ok_inv st n pxo a s Hd Hf Ht Wb Hc) as (_ & _ & Hd' & Hf' & N' & E' & A' & T' & S' & Hh).
+  assert (Eg : g (if top then finish_top s a None else s) = g s /\ seg (if top then finish_top s a None else s) = seg s /\
+               ft (if top then finish_top s a None else s) = ft s /\ nctr (if top then finish_top s a None else s) = nctr s).
+  { destruct top; [|auto]. destruct (finish_top_fields s a None) as (X1 & X2 & X3 & _ & X5). auto. }
+  destruct Eg as (Eg & Es & Ef & Ec). remember (if top then finish_top s a None else s) as st' eqn:Est'. clear Est'.
+  split; [now apply (EditBook.W_dict_same_g s)|]. split; [now apply (W_forest_same_g s)|].
+  split; [intros x; now rewrite (EditLin.is_node_same_g s st' x Eg)|].
+  split; [intros x y; now rewrite (EditLin.edge_same_g s st' x y Eg)|].
+  split; [intros m k Hm H1 H2; rewrite (same_g_attr s st' Eg); now apply A'|].
+  split; [intros m Hm; rewrite (EditLin.time_same_g s st' m Eg); now apply T'|].
+  split; [now rewrite Es|]. destruct Hh as (F1 & _ & _ & _ & F5). split; congruence.
+Qed.
+
+Corollary udn_keeps_dict st n pxo top a st' : W_dict st -> W_forest st -> W_trk st -> W_book st ->
+  user_delete_node st n pxo top = Ok a st' -> W_dict st'.
+Proof. intros Hd Hf Ht Wb H. apply (udn_keeps_forest st n pxo top a st' Hd Hf Ht Wb H). Qed.
+
+(* C11 for UserDeleteNode: when the node's own frame exists (W_seg gives it), a refused deletion returns the
+   state it was given, whatever the error *)
+Theorem udn_top_refused_unchanged st n pxo top e st' : W_dict st -> W_forest st -> W_trk st -> W_book st ->
+  (is_node st n -> px_ok st (get_pixels st n)) ->
+  user_delete_node st n pxo top = Err e st' ->
+  st' = st /\ (px_check st pxo = Some e \/ (px_check st pxo = None /\ e = ENetworkX /\ ~ is_node st n)).
+Proof. intros Hd Hf Ht Wb Hpx H. apply udn_top_err in H. now apply (udn_refused_unchanged st n pxo e st'). Qed.
+
+Corollary udn_top_refused_unchanged_wseg st n pxo top e st' : W_dict st -> W_forest st -> W_trk st -> W_book st -> W_seg st ->
+  user_delete_node st n pxo top = Err e st' -> st' = st.
+Proof. intros Hd Hf Ht Wb Ws H. apply udn_top_err in H. now apply (udn_refused_unchanged_wseg st n pxo e st'). Qed.
+
+Theorem udn_top_errors st n pxo top e st' : W_dict st -> W_forest st -> W_trk st -> W_book st ->
+  user_delete_node st n pxo top = Err e st' ->
+  (px_check st pxo = Some e /\ st' = st) \/
+  (px_check st pxo = None /\ ~ is_node st n /\ e = ENetworkX /\ st' = st) \/
+  (is_node st n /\ pxo = None /\ ~ px_ok st (get_pixels st n) /\ e = EIndex /\
+   W_dict st' /\ W_forest st' /\ gstep st st' /\
+   (forall x y, edge st' x y <-> (edge st x y /\ x <> n /\ y <> n) \/ udn_bridge st n x y)).
+Proof. intros Hd Hf Ht Wb H. apply udn_top_err in H. now apply udn_core_errors. Qed.
+
+(* accepted exactly on the nodes of the state whose pixels can be cleared *)
+Theorem udn_accepted_iff st n pxo top : W_dict st -> W_forest st -> W_trk st -> W_book st ->
+  ((exists a st', user_delete_node st n pxo top = Ok a st') <-> is_node st n /\ px_ok st (del_px st n pxo)).
+Proof.
+  intros Hd Hf Ht Wb. split.
+  - intros (a & st' & H). destruct (udn_top_inv st n pxo top a st' H) as (s & Hc & _).
+    destruct (udn_core_ok_inv st n pxo a s Hd Hf Ht Wb Hc) as (A & B & _). now split.
+  - intros [Nn Hpx]. destruct (proj2 (proj2 (udn_core_spec st n pxo Hd Hf Ht Wb)) Nn Hpx) as (a & s & H & _).
+    unfold user_delete_node, top_wrap. rewrite H. eauto.
+Qed.
+
+(* with a segmentation in which every node has its frame (W_seg), or without segmentation,
+   deleting a node without giving pixels is always accepted *)
+Corollary udn_accepted_wseg st n top : W_dict st -> W_forest st -> W_trk st -> W_book st -> W_seg st ->
+  is_node st n -> exists a st', user_delete_node st n None top = Ok a st'.
+Proof.
+  intros Hd Hf Ht Wb Ws Nn. apply (udn_accepted_iff st n None top Hd Hf Ht Wb). split; [exact Nn|].
+  cbn [del_px]. now apply W_seg_own_frame.
+Qed.
+
+(* ================================================================== *)
+(* 6. stretch: the ids and the lookups (C04, C05, C06)                  *)
+(* ================================================================== *)
+(* what the lineage / lookup argument carries from sub-action to sub-action: W_lin without the
+   distinct-roots half, which the cuts break until the orphans are relabelled *)
+Record LB (s : state) : Prop := {
+  lb_cfg : cfg_ok s; lb_dict : W_dict s; lb_forest : W_forest s;
+  lb_l1 : forall a c, edge s a c -> lin s a = lin s c; lb_book : W_book s
+}.
+
+Lemma reach_to_root st o x : (forall q, ~ edge st q o) -> reach st x o -> x = o.
+Proof.
+  intros Hr R. destruct (EditLin.reach_last st x o R) as [E|(p & _ & Hp)]; [exact E|]. exfalso. exact (Hr p Hp).
+Qed.
+
+(* the ancestors of a node are linearly ordered *)
+Lemma reach_up_linear st a b m : W_forest st -> reach st a m -> reach st b m -> reach st a b \/ reach st b a.
+Proof.
+  intros Hf Ha Hb. apply clos_rt_rtn1 in Hb. revert a Ha. induction Hb as [|y m Hym Hby IH]; intros a Ha.
+  - now left.
+  - destruct (EditLin.reach_last st a m Ha) as [->|(p & Rp & Hp)].
+    + right. eapply rt_trans; [apply clos_rtn1_rt; exact Hby|now apply rt_step].
+    + assert (p = y) as -> by (exact (wf_in _ Hf p y m Hp Hym)). now apply IH.
+Qed.
+
+Lemma roots_disjoint st o o' m : W_forest st -> (forall q, ~ edge st q o) -> (forall q, ~ edge st q o') ->
+  reach st o m -> reach st o' m -> o = o'.
+Proof.
+  intros Hf R R' H H'. destruct (reach_up_linear st o o' m Hf H H') as [X|X].
+  - now apply (reach_to_root st o' o R').
+  - symmetry. now apply (reach_to_root st o o' R).
+Qed.
+
+(* phase 4 with the ids: the subtree of every listed root gets its own fresh lineage id *)
+Lemma udn_orphans_rich : forall os s acc, LB s -> NoDup os ->
+  (forall o, In o os -> is_node s o /\ forall q, ~ edge s q o) ->
+  exists acts s', udn_orphans os s acc = Ok acts s' /\ LB s' /\ gstep s s' /\
+    (forall x y, edge s' x y <-> edge s x y) /\
+    (forall m, trk s' m = trk s m) /\
+    max_lin (bk s) <= max_lin (bk s') /\
+    (forall m, (forall o, In o os -> ~ reach s o m) -> lin s' m = lin s m) /\
+    (forall o m, In o os -> reach s o m -> exists l, lin s' m = Some l /\ max_lin (bk s) < l) /\
+    (forall o o' m m', In o os -> In o' os -> reach s o m -> reach s o' m' -> lin s' m = lin s' m' -> o = o').
+Proof.
+  induction os as [|o r IH]; intros s acc L Hnd Hroot; cbn [udn_orphans].
+  - exists acc, s. split; [reflexivity|]. split; [exact L|]. split; [apply gstep_refl|]. split; [reflexivity|].
+    split; [reflexivity|]. split; [lia|]. split; [reflexivity|]. split; [intros o m []|intros o o' m m' []].
+  - destruct L as [C Hd Hf L1 Wb]. inversion Hnd as [|? ? Ho Hr]; subst.
+    destruct (Hroot o (or_introl eq_refl)) as [No Ro].
+    destruct (wd_track _ Hd o No) as [t Et]. apply zattr_attr in Et. rewrite Et.
+    destruct (EditLin.upd_track_step_lin s o t (Some (next_lin s)) C Hd Hf L1 Wb No)
+      as (b & s1 & H1 & Hd1 & Hf1 & G1 & E1 & S1 & C1 & Wb1 & M1 & Lin1 & Lout1).
+    rewrite H1. cbn [bind].
+    assert (Tr1 : forall m, trk s1 m = trk s m) by (apply (do_upd_track_same_id s o t _ b s1 Hd (proj1 C) H1 Et)).
+    assert (Mx : max_lin (bk s1) = max_lin (bk s) + 1) by (rewrite M1; unfold next_lin; lia).
+    assert (R1 : forall a b0, reach s1 a b0 <-> reach s a b0) by (apply EditLin.reach_ext; exact E1).
+    assert (L11 : forall a c, edge s1 a c -> lin s1 a = lin s1 c).
+    { intros a c Hac. apply E1 in Hac. destruct (EditLin.reach_dec s Hd Hf o a) as [Ra|Ra].
+      - rewrite (Lin1 a Ra), (Lin1 c); [reflexivity|]. eapply rt_trans; [exact Ra|now apply rt_step].
+      - assert (Rc : ~ reach s o c).
+        { intros Rc. destruct (EditLin.reach_last s o c Rc) as [->|(p & Rp & Hp)]; [exact (Ro a Hac)|].
+          apply Ra. now rewrite (wf_in _ Hf a p c Hac Hp). }
+        rewrite (Lout1 a Ra), (Lout1 c Rc). now apply L1. }
+    destruct (IH s1 (acc ++ [ABasic b]) (Build_LB s1 C1 Hd1 Hf1 L11 Wb1) Hr)
+      as (acts & s' & H & L' & G' & E' & Tr' & M' & Lf' & Ln' & Ld').
+    { intros o' Ho'. destruct (Hroot o' (or_intror Ho')) as [A B]. split; [now apply (gstep_is_node _ _ _ G1)|].
+      intros q Hq. apply (B q). now apply E1. }
+    (* the subtree of o is not touched by the later relabellings *)
+    assert (Hkeep : forall m, reach s o m -> lin s' m = Some (next_lin s)).
+    { intros m Rm. rewrite Lf'; [now apply Lin1|]. intros o' Ho' Rm'. apply R1 in Rm'.
+      assert (o = o') by (apply (roots_disjoint s o o' m Hf Ro); [apply (Hroot o' (or_intror Ho'))|exact Rm|exact Rm']).
+      subst o'. contradiction. }
+    exists acts, s'. split; [exact H|]. split; [exact L'|]. split; [eapply gstep_trans; eauto|].
+    split; [intros x y; now rewrite E', E1|]. split; [intros m; now rewrite Tr', Tr1|]. split; [lia|].
+    split; [|split].
+    + intros m Hm. rewrite Lf'; [apply Lout1; apply Hm; now left|]. intros o' Ho' Rm'. apply R1 in Rm'. apply (Hm o'); [now right|exact Rm'].
+    + intros o0 m [<-|Ho0] Rm.
+      * exists (next_lin s). split; [now apply Hkeep|unfold next_lin; lia].
+      * apply R1 in Rm. destruct (Ln' o0 m Ho0 Rm) as (l & El & Hl). exists l. split; [exact El|lia].
+    + intros o1 o2 m m' [<-|H1'] [<-|H2'] Rm Rm' Eq; [reflexivity| | |].
+      * exfalso. apply R1 in Rm'. destruct (Ln' o2 m' H2' Rm') as (l & El & Hl). rewrite (Hkeep m Rm), El in Eq.
+        injection Eq as Eq. unfold next_lin in Eq. lia.
+      * exfalso. apply R1 in Rm. destruct (Ln' o1 m H1' Rm) as (l & El & Hl). rewrite (Hkeep m' Rm'), El in Eq.
+        injection Eq as Eq. unfold next_lin in Eq. lia.
+      * apply R1 in Rm. apply R1 in Rm'. exact (Ld' o1 o2 m m' H1' H2' Rm Rm' Eq).
+Qed.
+
+(* the sibling the first loop picks *)
+Lemma remove1_sibling st p n : W_dict st -> edge st p n -> length (successors st p) = 2%nat ->
+  exists sib r, remove1 n (successors st p) = sib :: r /\ edge st p sib /\ sib <> n /\
+                forall x, edge st p x -> x = n \/ x = sib.
+Proof.
+  intros Hd Hp L2. pose proof (wd_adj_nodup _ Hd p) as Hnd.
+  assert (Hin : In n (successors st p)) by (now apply edge_successors).
+  assert (Hall : forall sib, In sib (successors st p) -> sib <> n -> forall x, edge st p x -> x = n \/ x = sib).
+  { intros sib Hs Hne x Hx. apply edge_successors in Hx.
+    destruct (successors st p) as [|a [|b [|c r]]] eqn:Es; try (cbn in L2; lia).
+    cbn [In] in *. intuition congruence. }
+  destruct (successors st p) as [|a [|b [|c r]]] eqn:Es; try (cbn in L2; lia).
+  cbn [remove1]. destruct (Z.eqb_spec n a) as [->|Hna].
+  - assert (Hb : b <> a) by (inversion Hnd as [|? ? Hx _]; subst; intros ->; apply Hx; now left).
+    exists b, []. split; [reflexivity|]. split; [apply edge_successors; rewrite Es; right; now left|]. split; [exact Hb|].
+    apply Hall; [right; now left|exact Hb].
+  - exists a, (if n =? b then [] else [b]). split; [reflexivity|]. split; [apply edge_successors; rewrite Es; now left|].
+    split; [congruence|]. apply Hall; [now left|congruence].
+Qed.
+
+Lemma LB_frame s s' : (forall m, is_node s' m <-> is_node s m) -> (forall m k, attr s' m k = attr s m k) ->
+  bk s' = bk s -> ft s' = ft s -> cfg_ok s -> W_book s -> cfg_ok s' /\ W_book s' /\
+  (forall m, lin s' m = lin s m) /\ (forall m, trk s' m = trk s m) /\ max_lin (bk s') = max_lin (bk s).
+Proof.
+  intros Hn Ha Eb Ef C Wb.
+  assert (Hl : forall m, lin s' m = lin s m) by (intros m; unfold lin, zattr; now rewrite Ha).
+  assert (Ht : forall m, trk s' m = trk s m) by (intros m; unfold trk, zattr; now rewrite Ha).
+  split; [now apply (EditLin.cfg_ok_ft s s')|]. split; [apply (EditBook.W_book_ext s s'); auto|]. split; [exact Hl|].
+  split; [exact Ht|now rewrite Eb].
+Qed.
+
+(* phase 1 with the ids *)
+Lemma udn_preds_rich st n acts s1 : LB st -> is_node st n ->
+  udn_preds n (predecessors st n) st [] = Ok acts s1 ->
+  cfg_ok s1 /\ W_book s1 /\ (forall m, lin s1 m = lin st m) /\ max_lin (bk s1) = max_lin (bk st) /\
+  ((forall q, edge st q n -> ~ divides st q) -> forall m, trk s1 m = trk st m) /\
+  (W_trk st -> forall q, edge st q n -> divides st q -> W_trk s1).
+Proof.
+  intros [C Hd Hf L1 Wb] Nn H.
+  (* the structure of s1, from the basic specification *)
+  destruct (udn_preds_spec st n Hd Hf Nn) as (acts0 & s0 & H0 & Hd1 & Hf1 & G1 & E1 & S1 & _).
+  rewrite H in H0. injection H0 as <- <-.
+  destruct (preds_cases st n Hd Hf) as [[Ep Hno]|(p & Ep & Hp & Hall)]; rewrite Ep in H; cbn [udn_preds] in H.
+  - injection H as <- <-. split; [exact C|]. split; [exact Wb|]. split; [reflexivity|]. split; [reflexivity|].
+    split; [reflexivity|]. intros _ q Hq. exfalso. exact (Hno q Hq).
+  - cbv zeta in H. pose proof (wf_out _ Hf p) as Hout.
+    destruct (Nat.eqb_spec (length (successors st p)) 2) as [L2|L2].
+    + destruct (remove1_sibling st p n Hd Hp L2) as (sib & r & Er & Hps & Hsn & Honly). rewrite Er in H.
+      assert (Np : is_node st p) by apply (wd_edge_nodes _ Hd p n Hp).
+      assert (Ns : is_node st sib) by apply (wd_edge_nodes _ Hd p sib Hps).
+      destruct (wd_track _ Hd p Np) as [t Ht]. apply zattr_attr in Ht. rewrite Ht in H.
+      destruct (EditLin.upd_track_step_lin st sib t None C Hd Hf L1 Wb Ns)
+        as (b & sa & Ha & Hda & Hfa & Ga & Ea & Sa & Ca & Wba & Ma & Lina).
+      rewrite Ha in H. cbn [bind] in H.
+      destruct (do_del_edge sa p n) as [b2 s1'|e2 s1'] eqn:H2; cbn [bind udn_preds] in H; [|discriminate]. injection H as _ ->.
+      destruct (do_del_edge_WS sa p n b2 s1 Hda Hfa H2) as (_ & _ & _ & Hn2 & Ha2 & (_ & Ef2 & Eb2 & _)).
+      destruct (LB_frame sa s1) as (C1 & Wb1 & Lin1 & Trk1 & M1); auto.
+      { intros m. unfold is_node. now rewrite Hn2. }
+      split; [exact C1|]. split; [exact Wb1|]. split; [intros m; now rewrite Lin1, Lina|]. split; [now rewrite M1, Ma|].
+      assert (Dp : divides st p) by (unfold divides; lia).
+      split; [intros Hnd; exfalso; exact (Hnd p Hp Dp)|].
+      intros Wt q Hq _. clear q Hq.
+      set (K := length (nodes (g st))).
+      assert (Hps_t : time_of st p < time_of st sib) by (now apply (wf_time _ Hf)).
+      destruct (relabel_walk st st p sib t None b sa Hd Hf Wt Hd Hf eq_refl (fun _ _ => eq_refl) (fun _ _ => eq_refl) Ns Hps_t (proj1 C) Ha) as [Tr _].
+      fold K in Tr.
+      assert (Hp_out : ~ In p (chain st K sib)).
+      { intros Hi. destruct (chain_time st Hf K sib p Hi) as [E|L]; [subst; lia|lia]. }
+      assert (Tr1 : forall m, trk s1 m = if memz m (chain st K sib) then Some t else trk st m) by (intros m; now rewrite Trk1, Tr).
+      assert (Ss : forall a, a <> p -> successors s1 a = successors st a).
+      { intros a Ha'. rewrite S1. apply filter_neq_notin. intros Hi. apply Ha'. apply Hall. now apply edge_successors. }
+      assert (Sp : length (successors s1 p) = 1%nat).
+      { rewrite S1, filter_remove_length; [lia|apply (wd_adj_nodup _ Hd)|now apply edge_successors]. }
+      apply (W_trk_relabel st st s1 p sib t K Wt Hf).
+      * intros m. apply (gstep_is_node _ _ _ G1).
+      * reflexivity.
+      * exact Ss.
+      * apply (chain_complete st sib Hd Hf Ns).
+      * exact Hp_out.
+      * intros a Ha'. exact (wf_in _ Hf a p sib Ha' Hps).
+      * exact Tr1.
+      * intros c Hc _. apply E1 in Hc. destruct Hc as [Hc Hcn]. destruct (Honly c Hc) as [->| ->]; [contradiction|].
+        rewrite !Tr1. apply memz_false in Hp_out. rewrite Hp_out.
+        pose proof (chain_self st K sib) as Hself. apply memz_In in Hself. rewrite Hself. exact Ht.
+      * right. intros [_ P]. assert (Es : edge s1 p sib) by (apply E1; now split). specialize (P p Es). unfold divides in P. lia.
+      * intros q a Hqa Hna [_ P]. destruct (Z.eq_dec q p) as [->|Hqp]; [exact Dp|].
+        assert (Han : a <> n) by (intros ->; apply Hqp; now apply Hall).
+        assert (Es : edge s1 q a) by (apply E1; now split). specialize (P q Es). unfold divides in *. now rewrite (Ss q Hqp) in P.
+    + cbn [bind] in H.
+      destruct (do_del_edge st p n) as [b2 s1'|e2 s1'] eqn:H2; cbn [bind udn_preds] in H; [|discriminate]. injection H as _ ->.
+      destruct (do_del_edge_WS st p n b2 s1 Hd Hf H2) as (_ & _ & _ & Hn2 & Ha2 & (_ & Ef2 & Eb2 & _)).
+      destruct (LB_frame st s1) as (C1 & Wb1 & Lin1 & Trk1 & M1); auto.
+      { intros m. unfold is_node. now rewrite Hn2. }
+      split; [exact C1|]. split; [exact Wb1|]. split; [exact Lin1|]. split; [exact M1|]. split; [intros _; exact Trk1|].
+      intros _ q Hq Dq. exfalso. rewrite (Hall q Hq) in Dq. unfold divides in Dq. lia.
+Qed.
+
+(* ---- W_trk across the deletion of a node whose parent (if any) does not divide ---- *)
+Lemma divides_edges st u : W_dict st -> (divides st u <-> exists a b, a <> b /\ edge st u a /\ edge st u b).
+Proof.
+  intros Hd. unfold divides. pose proof (wd_adj_nodup _ Hd u) as Hnd. split.
+  - intros L. destruct (successors st u) as [|a [|b r]] eqn:Es; try (cbn in L; lia).
+    exists a, b. split; [inversion Hnd as [|? ? Hx _]; subst; intros ->; apply Hx; now left|].
+    split; apply edge_successors; rewrite Es; [now left|right; now left].
+  - intros (a & b & Hab & Ha & Hb). apply edge_successors in Ha, Hb.
+    destruct (successors st u) as [|x [|y r]]; cbn; try lia.
+    + destruct Ha.
+    + destruct Ha as [<-|[]]; destruct Hb as [<-|[]]; contradiction.
+Qed.
+
+Lemma W_trk_del_node st st' n :
+  W_dict st -> W_forest st -> W_trk st -> W_dict st' ->
+  (forall x, is_node st' x <-> is_node st x /\ x <> n) ->
+  (forall x y, edge st' x y <-> (edge st x y /\ x <> n /\ y <> n) \/ udn_bridge st n x y) ->
+  (forall m, m <> n -> trk st' m = trk st m) ->
+  (forall q, edge st q n -> ~ divides st q) ->
+  W_trk st'.
+Proof.
+  intros Hd Hf Ht Hd' N' E' T' Hpar.
+  assert (D1 : forall u, divides st' u -> divides st u).
+  { intros u Du. apply (divides_edges st' u Hd') in Du. destruct Du as (a & b & Hab & Ha & Hb).
+    apply E' in Ha. apply E' in Hb. apply (divides_edges st u Hd).
+    destruct Ha as [(Ha & _ & Han)|(A1 & A2 & A3)]; destruct Hb as [(Hb & _ & Hbn)|(B1 & B2 & B3)].
+    - exists a, b. auto.
+    - exfalso. pose proof (not_divides_single st u n B1 B2) as Es. apply edge_successors in Ha. rewrite Es in Ha.
+      destruct Ha as [<-|[]]. contradiction.
+    - exfalso. pose proof (not_divides_single st u n A1 A2) as Es. apply edge_successors in Hb. rewrite Es in Hb.
+      destruct Hb as [<-|[]]. contradiction.
+    - exfalso. congruence. }
+  assert (D2 : forall u, u <> n -> divides st u -> divides st' u).
+  { intros u Hun Du. pose proof Du as Du0. apply (divides_edges st u Hd) in Du. destruct Du as (a & b & Hab & Ha & Hb).
+    apply (divides_edges st' u Hd'). exists a, b. split; [exact Hab|].
+    assert (Han : a <> n) by (intros ->; exact (Hpar u Ha Du0)).
+    assert (Hbn : b <> n) by (intros ->; exact (Hpar u Hb Du0)).
+    split; apply E'; left; auto. }
+  constructor.
+  - intros u v Huv Hnd'. apply E' in Huv. destruct Huv as [(Ho & Hun & Hvn)|B].
+    + rewrite (T' u Hun), (T' v Hvn). apply (wt1 _ Ht u v Ho). intros Du. apply Hnd'. now apply D2.
+    + destruct (bridge_ends st n u v Hf B) as (Hun & Hvn & _). destruct B as (A & Bn & Cs).
+      rewrite (T' u Hun), (T' v Hvn), (wt1 _ Ht u n A Bn).
+      destruct (single_not_divides st n v Cs) as [Hnv Hndn]. exact (wt1 _ Ht n v Hnv Hndn).
+  - assert (K : forall a, head st' a -> head st a \/ (successors st n = [a] /\ head st n)).
+    { intros a [Na Pa]. apply N' in Na. destruct Na as [Na Han].
+      destruct (parent_dec st a Hd) as [[q Hq]|Hnone].
+      - destruct (le_lt_dec 2 (length (successors st q))) as [D|D].
+        + left. split; [exact Na|]. intros p Hp. now rewrite (wf_in _ Hf p q a Hp Hq).
+        + assert (Dq : ~ divides st q) by (unfold divides; lia).
+          pose proof (not_divides_single st q a Hq Dq) as Es.
+          destruct (Z.eq_dec q n) as [->|Hqn].
+          * right. split; [exact Es|]. split; [apply (wd_edge_nodes _ Hd n a Hq)|]. intros p Hp. exfalso.
+            pose proof (Hpar p Hp) as Dp. apply Dp. apply D1. apply Pa. apply E'. right. split; [exact Hp|split; [exact Dp|exact Es]].
+          * exfalso. apply Dq. apply D1. apply Pa. apply E'. left. auto.
+      - left. split; [exact Na|]. intros p Hp. exfalso. exact (Hnone p Hp). }
+    intros a b Ha Hb Eab.
+    assert (Han : a <> n) by (apply (N' a), Ha). assert (Hbn : b <> n) by (apply (N' b), Hb).
+    rewrite (T' a Han), (T' b Hbn) in Eab.
+    assert (Hchild : forall c, successors st n = [c] -> trk st n = trk st c).
+    { intros c Es. destruct (single_not_divides st n c Es) as [Hnc Hndn]. exact (wt1 _ Ht n c Hnc Hndn). }
+    destruct (K a Ha) as [Ha0|[Ea Hn]]; destruct (K b Hb) as [Hb0|[Eb Hn']].
+    + now apply (wt2 _ Ht).
+    + exfalso. apply Han. apply (wt2 _ Ht a n Ha0 Hn'). rewrite (Hchild b Eb). exact Eab.
+    + exfalso. apply Hbn. apply (wt2 _ Ht b n Hb0 Hn). rewrite (Hchild a Ea). now symmetry.
+    + congruence.
+Qed.
+
+(* ---- the run before DeleteNode, with the ids ---- *)
+Lemma NoDup_tl (l : list Z) : NoDup l -> NoDup (tl l).
+Proof. intros H. destruct l; [exact H|]. now inversion H. Qed.
+
+Lemma udn_prefix_rich st n : LB st -> W_trk st -> is_node st n ->
+  exists acts s4 os, udn_prefix st n = Ok acts s4 /\ LB s4 /\ gstep st s4 /\
+    (forall x y, edge s4 x y <-> (edge st x y /\ x <> n /\ y <> n) \/ udn_bridge st n x y) /\
+    (* track ids *)
+    ((forall q, edge st q n -> ~ divides st q) -> forall m, trk s4 m = trk st m) /\
+    (forall q, edge st q n -> divides st q -> exists s1, W_dict s1 /\ W_forest s1 /\ W_trk s1 /\
+        (forall m, is_node s1 m <-> is_node st m) /\ (forall x y, edge s1 x y <-> edge st x y /\ y <> n) /\
+        forall m, trk s4 m = trk s1 m) /\
+    (* lineage ids *)
+    max_lin (bk st) <= max_lin (bk s4) /\
+    (forall o, In o os -> edge st n o) /\
+    (forall a, edge st n a -> (forall p, ~ udn_bridge st n p a) ->
+        In a os \/ ((forall q, ~ edge st q n) /\ exists r, successors st n = a :: r)) /\
+    (forall m, (forall o, In o os -> ~ reach s4 o m) -> lin s4 m = lin st m) /\
+    (forall o m, In o os -> reach s4 o m -> exists l, lin s4 m = Some l /\ max_lin (bk st) < l) /\
+    (forall o o' m m', In o os -> In o' os -> reach s4 o m -> reach s4 o' m' -> lin s4 m = lin s4 m' -> o = o').
+Proof.
+  intros L Ht Nn. pose proof L as [C Hd Hf L1 Wb]. unfold udn_prefix. cbv zeta.
+  (* phase 1 *)
+  destruct (udn_preds_spec st n Hd Hf Nn) as (acts1 & s1 & H1 & Hd1 & Hf1 & G1 & E1 & S1 & A1 & B1).
+  destruct (udn_preds_rich st n acts1 s1 L Nn H1) as (C1 & Wb1 & Lin1 & M1 & Trk1a & Trk1b).
+  rewrite H1. cbn [bind].
+  (* phase 2 *)
+  assert (Ecs : successors s1 n = successors st n).
+  { rewrite S1. apply filter_neq_notin. intros Hi. apply edge_successors in Hi. exact (edge_irrefl st n Hf Hi). }
+  rewrite Ecs. pose proof (wd_adj_nodup _ Hd n) as Hcsnd.
+  destruct (udn_succs_spec n (successors st n) s1 acts1 Hd1 Hf1 Hcsnd) as (acts2 & s2 & H2 & Hd2 & Hf2 & Hn2 & Ha2 & Hr2 & E2 & S2).
+  { intros c Hc. apply E1. split; [now apply edge_successors|]. intros ->. apply edge_successors in Hc. exact (edge_irrefl st n Hf Hc). }
+  rewrite H2. cbn [bind].
+  assert (G2 : gstep st s2) by (eapply gstep_trans; [exact G1|now apply rest_eq_gstep]).
+  assert (E2' : forall x y, edge s2 x y <-> edge st x y /\ x <> n /\ y <> n).
+  { intros x y. rewrite E2, E1, <- edge_successors. split.
+    - intros [[A B] X]. split; [exact A|split; [|exact B]]. intros ->. apply X. now split.
+    - intros (A & B & X). split; [now split|]. intros [D _]. contradiction. }
+  destruct (LB_frame s1 s2) as (C2 & Wb2 & Lin2 & Trk2 & M2); [intros m; unfold is_node; now rewrite Hn2|exact Ha2|apply Hr2|apply Hr2|exact C1|exact Wb1|].
+  (* phase 3 *)
+  destruct (wd_track _ Hd n Nn) as [T ET]. assert (En : trk st n = Some T) by (now apply zattr_attr).
+  assert (En2 : zattr s2 n KTrack = Some T) by (apply zattr_attr; now rewrite Ha2, A1).
+  rewrite En2.
+  destruct (track_neighbors s2 T (time_of s2 n)) as [s3 [p' c']] eqn:Etn.
+  assert (Esnd : snd (track_neighbors st T (time_of st n)) = (p', c')).
+  { rewrite <- (gstep_time _ _ n G2). rewrite <- (track_neighbors_ext st s2 T (time_of s2 n)); [now rewrite Etn| |intros m; apply (gstep_time _ _ m G2)].
+    destruct Hr2 as (_ & _ & Eb & _). rewrite Eb. apply B1. now apply udn_T_other. }
+  destruct (neighbors_of_node st n T p' c' Hd Hf Ht Wb En Esnd) as [HP HC].
+  destruct (EditBook.track_neighbors_spec s2 T _ s3 p' c' Wb2 Etn) as (_ & Wb3 & _ & _).
+  pose proof (track_neighbors_state s2 T (time_of s2 n)) as F3. rewrite Etn in F3. cbv zeta in F3. cbn [fst] in F3.
+  destruct F3 as (Eg3 & Es3 & Ef3 & Eu3 & Er3 & El3 & Ec3 & _ & _ & M3).
+  assert (Hd3 : W_dict s3) by (now apply (EditBook.W_dict_same_g s2)).
+  assert (Hf3 : W_forest s3) by (now apply (W_forest_same_g s2)).
+  assert (G3 : gstep st s3) by (eapply gstep_trans; [exact G2|now apply gstep_same_g]).
+  assert (E3 : forall x y, edge s3 x y <-> edge st x y /\ x <> n /\ y <> n).
+  { intros x y. rewrite (EditLin.edge_same_g s2 s3 x y Eg3). apply E2'. }
+  assert (S3 : forall x, x <> n -> successors s3 x = filter (fun y => negb (n =? y)) (successors st x)).
+  { intros x Hx. rewrite (EditLin.successors_same_g s2 s3 x Eg3), (S2 x Hx). apply S1. }
+  assert (C3 : cfg_ok s3) by (now apply (EditLin.cfg_ok_ft s2 s3)).
+  assert (Lin3 : forall m, lin s3 m = lin st m) by (intros m; now rewrite (EditLin.lin_same_g s2 s3 m Eg3), Lin2, Lin1).
+  assert (Trk3 : forall m, trk s3 m = trk s1 m) by (intros m; now rewrite (same_g_trk s2 s3 Eg3), Trk2).
+  assert (Mx3 : max_lin (bk s3) = max_lin (bk st)) by (now rewrite M3, M2, M1).
+  assert (L13 : forall a c, edge s3 a c -> lin s3 a = lin s3 c).
+  { intros a c Hac. apply E3 in Hac. rewrite !Lin3. apply L1. tauto. }
+  pose (LB3 := Build_LB s3 C3 Hd3 Hf3 L13 Wb3).
+  (* the track ids, once the rest of the run is known not to change them *)
+  assert (Htrk : forall s4, (forall m, trk s4 m = trk s3 m) ->
+            ((forall q, edge st q n -> ~ divides st q) -> forall m, trk s4 m = trk st m) /\
+            (forall q, edge st q n -> divides st q -> exists s1, W_dict s1 /\ W_forest s1 /\ W_trk s1 /\
+               (forall m, is_node s1 m <-> is_node st m) /\ (forall x y, edge s1 x y <-> edge st x y /\ y <> n) /\
+               forall m, trk s4 m = trk s1 m)).
+  { intros s4 T4. split.
+    - intros Hnd m. now rewrite T4, Trk3, (Trk1a Hnd).
+    - intros q Hq Dq. exists s1. split; [exact Hd1|]. split; [exact Hf1|]. split; [exact (Trk1b Ht q Hq Dq)|].
+      split; [intros m; apply (gstep_is_node _ _ _ G1)|]. split; [exact E1|]. intros m. now rewrite T4, Trk3. }
+  assert (Hroots : forall o, In o (successors st n) -> is_node s3 o /\ forall q, ~ edge s3 q o).
+  { intros o Ho. apply edge_successors in Ho. split; [apply (gstep_is_node _ _ _ G3); apply (wd_edge_nodes _ Hd n o Ho)|].
+    intros q Hq. apply E3 in Hq. destruct Hq as (Hq & Hqn & _). apply Hqn. exact (wf_in _ Hf q n o Hq Ho). }
+  (* no bridge: the listed orphans are relabelled in s3 *)
+  assert (Hnobridge : (forall pp cc, ~ (p' = Some pp /\ c' = Some cc)) ->
+     let os := (if match predecessors st n with [] => false | _ :: _ => true end then successors st n else tl (successors st n)) in
+     exists acts s4 os0, udn_orphans os s3 acts2 = Ok acts s4 /\ LB s4 /\ gstep st s4 /\
+    (forall x y, edge s4 x y <-> (edge st x y /\ x <> n /\ y <> n) \/ udn_bridge st n x y) /\
+    ((forall q, edge st q n -> ~ divides st q) -> forall m, trk s4 m = trk st m) /\
+    (forall q, edge st q n -> divides st q -> exists s1, W_dict s1 /\ W_forest s1 /\ W_trk s1 /\
+        (forall m, is_node s1 m <-> is_node st m) /\ (forall x y, edge s1 x y <-> edge st x y /\ y <> n) /\
+        forall m, trk s4 m = trk s1 m) /\
+    max_lin (bk st) <= max_lin (bk s4) /\
+    (forall o, In o os0 -> edge st n o) /\
+    (forall a, edge st n a -> (forall p, ~ udn_bridge st n p a) ->
+        In a os0 \/ ((forall q, ~ edge st q n) /\ exists r, successors st n = a :: r)) /\
+    (forall m, (forall o, In o os0 -> ~ reach s4 o m) -> lin s4 m = lin st m) /\
+    (forall o m, In o os0 -> reach s4 o m -> exists l, lin s4 m = Some l /\ max_lin (bk st) < l) /\
+    (forall o o' m m', In o os0 -> In o' os0 -> reach s4 o m -> reach s4 o' m' -> lin s4 m = lin s4 m' -> o = o')).
+  { intros Hno os.
+    assert (Hos : forall o, In o os -> In o (successors st n)).
+    { intros o. unfold os. destruct (predecessors st n); [destruct (successors st n); [tauto|now right]|tauto]. }
+    assert (Hosnd : NoDup os) by (unfold os; destruct (predecessors st n); [now apply NoDup_tl|exact Hcsnd]).
+    destruct (udn_orphans_rich os s3 acts2 LB3 Hosnd) as (acts & s4 & H4 & L4 & G4 & E4 & T4 & M4 & Lf4 & Ln4 & Ld4).
+    { intros o Ho. apply Hroots. now apply Hos. }
+    assert (R4 : forall a b, reach s4 a b <-> reach s3 a b) by (apply EditLin.reach_ext; exact E4).
+    exists acts, s4, os. split; [exact H4|]. split; [exact L4|]. split; [eapply gstep_trans; eauto|].
+    split.
+    { intros x y. rewrite E4, E3. split; [now left|]. intros [A|(X1 & X2 & X3)]; [exact A|].
+      exfalso. apply (Hno x y). split; [apply HP; now split|now apply HC]. }
+    destruct (Htrk s4 T4) as [Ta Tb]. split; [exact Ta|]. split; [exact Tb|]. split; [lia|].
+    split; [intros o Ho; apply edge_successors; now apply Hos|]. split.
+    { intros a Ha _. apply edge_successors in Ha. unfold os. destruct (preds_cases st n Hd Hf) as [[Ep Hnop]|(p & Ep & _)]; rewrite Ep.
+      - destruct (successors st n) as [|a0 r]; [destruct Ha|]. destruct Ha as [<-|Ha]; [right; split; [exact Hnop|now exists r]|now left].
+      - now left. }
+    split; [intros m Hm; rewrite Lf4; [apply Lin3|]; intros o Ho Ro; apply (Hm o Ho); now apply R4|].
+    split.
+    { intros o m Ho Ro. apply R4 in Ro. destruct (Ln4 o m Ho Ro) as (l & El & Hl). exists l. split; [exact El|lia]. }
+    intros o o' m m' Ho Ho' Ro Ro'. apply R4 in Ro. apply R4 in Ro'. now apply Ld4. }
+  destruct p' as [pp|]; destruct c' as [cc|];
+    try (cbn [bind]; apply Hnobridge; intros pp0 cc0 [X Y]; discriminate).
+  (* both neighbours exist: the bridge, and no orphan to relabel *)
+  clear Hnobridge.
+  destruct (proj1 (HP pp) eq_refl) as [Hpn Hnd]. pose proof (proj1 (HC cc) eq_refl) as Hsn.
+  assert (Hnc : edge st n cc) by (apply edge_successors; rewrite Hsn; now left).
+  assert (Hppn : pp <> n) by (intros ->; exact (edge_irrefl st n Hf Hpn)).
+  assert (Hccn : cc <> n) by (intros ->; exact (edge_irrefl st n Hf Hnc)).
+  assert (Npp : is_node s3 pp) by (apply (gstep_is_node _ _ _ G3); apply (wd_edge_nodes _ Hd pp n Hpn)).
+  assert (Ncc : is_node s3 cc) by (apply (gstep_is_node _ _ _ G3); apply (wd_edge_nodes _ Hd n cc Hnc)).
+  destruct (do_add_edge_spec s3 pp cc [] Npp Ncc) as (b & s3' & H3 & _). rewrite H3. cbn [bind].
+  destruct (do_add_edge_WS s3 pp cc [] b s3' Hd3 Hf3 H3) as (Hd3' & Hf3' & E3' & N3' & A3' & R3').
+  { rewrite !(gstep_time _ _ _ G3). pose proof (wf_time _ Hf _ _ Hpn). pose proof (wf_time _ Hf _ _ Hnc). lia. }
+  { intros q Hq. apply E3 in Hq. destruct Hq as (Hq & Hqn & _). exfalso. apply Hqn. exact (wf_in _ Hf q n cc Hq Hnc). }
+  { right. rewrite (S3 pp Hppn), (not_divides_single st pp n Hpn Hnd). cbn. rewrite Z.eqb_refl. cbn. lia. }
+  rewrite Hsn. cbn [filter]. rewrite Z.eqb_refl. cbn [negb].
+  assert (Enil : (if match predecessors st n with [] => false | _ :: _ => true end then @nil Z else tl []) = []) by (destruct (predecessors st n); reflexivity).
+  rewrite Enil. cbn [udn_orphans].
+  destruct (LB_frame s3 s3') as (C3' & Wb3' & Lin3' & Trk3' & M3'); [intros m; unfold is_node; now rewrite N3'|exact A3'|apply R3'|apply R3'|exact C3|exact Wb3|].
+  assert (E4 : forall x y, edge s3' x y <-> (edge st x y /\ x <> n /\ y <> n) \/ udn_bridge st n x y).
+  { intros x y. rewrite E3', E3. unfold udn_bridge. split.
+    - intros [A|[-> ->]]; [now left|right]. split; [exact Hpn|split; [exact Hnd|exact Hsn]].
+    - intros [A|(X1 & X2 & X3)]; [now left|right]. split; [|congruence]. exact (wf_in _ Hf x pp n X1 Hpn). }
+  assert (L13' : forall a c, edge s3' a c -> lin s3' a = lin s3' c).
+  { intros a c Hac. apply E4 in Hac. rewrite !Lin3', !Lin3. destruct Hac as [(A & _)|(X1 & _ & X3)]; [now apply L1|].
+    rewrite (L1 a n X1). apply L1. apply edge_successors. rewrite X3. now left. }
+  eexists _, s3', []. split; [reflexivity|]. split; [exact (Build_LB s3' C3' Hd3' Hf3' L13' Wb3')|].
+  split; [eapply gstep_trans; [exact G3|now apply rest_eq_gstep]|]. split; [exact E4|].
+  destruct (Htrk s3' Trk3') as [Ta Tb]. split; [exact Ta|]. split; [exact Tb|]. split; [lia|].
+  split; [intros o []|]. split.
+  { intros a Ha Hnb. exfalso. apply (Hnb pp). apply edge_successors in Ha. rewrite Hsn in Ha. destruct Ha as [<-|[]].
+    split; [exact Hpn|split; [exact Hnd|exact Hsn]]. }
+  split; [intros m _; now rewrite Lin3', Lin3|]. split; [intros o m []|intros o o' m m' []].
+Qed.
+
+Lemma lin_bounded st : W_book st -> forall m l, is_node st m -> lin st m = Some l -> l <= max_lin (bk st).
+Proof. intros [_ (_ & _ & H)] m l Nm El. now destruct (H m l Nm El). Qed.
+
+(* ---- the ids and the lookups after the whole action ---- *)
+Theorem udn_core_ids st n pxo a st' : LB st -> W_trk st ->
+  user_delete_node_core st n pxo = Ok a st' ->
+  LB st' /\ W_trk st' /\ (W_lin st -> W_lin st').
+Proof.
+  intros L Ht H. pose proof L as [C Hd Hf L1 Wb].
+  destruct (udn_core_ok_inv st n pxo a st' Hd Hf Ht Wb H) as (Nn & Hpx & Hd' & Hf' & N' & E' & _).
+  destruct (udn_prefix_rich st n L Ht Nn) as (acts & s4 & os & H4 & L4 & G4 & E4 & Ta & Tb & Mx & Hos1 & Hos2 & Lf & Ln & Ld).
+  pose proof L4 as [C4 Hd4 Hf4 L14 Wb4].
+  destruct (udn_core_ok_unfold st n pxo a st' H) as (_ & _ & acts' & s4' & b & H4' & H5). rewrite H4 in H4'. injection H4' as <- <-.
+  destruct (do_del_node_WS s4 n pxo b st' Hd4 Hf4 H5) as (_ & _ & N5 & E5 & _ & A5 & _ & _ & _ & _ & Hh5 & _).
+  assert (Lin5 : forall m, m <> n -> lin st' m = lin s4 m) by (intros m Hm; unfold lin, zattr; now rewrite A5).
+  assert (Trk5 : forall m, m <> n -> trk st' m = trk s4 m) by (intros m Hm; unfold trk, zattr; now rewrite A5).
+  assert (C' : cfg_ok st') by (apply (EditLin.cfg_ok_ft s4 st'); [apply Hh5|exact C4]).
+  assert (Wb' : W_book st') by (exact (EditBook.del_node_W_book s4 n pxo b st' C4 Hd4 H5 Wb4)).
+  assert (L1' : forall x y, edge st' x y -> lin st' x = lin st' y).
+  { intros x y Hxy. apply E5 in Hxy. destruct Hxy as (Hxy & Hx & Hy). rewrite (Lin5 x Hx), (Lin5 y Hy). now apply L14. }
+  split; [exact (Build_LB st' C' Hd' Hf' L1' Wb')|]. split.
+  - (* W_trk *)
+    assert (Hcase : (forall q, edge st q n -> ~ divides st q) \/ (exists q, edge st q n /\ divides st q)).
+    { destruct (preds_cases st n Hd Hf) as [[_ Hno]|(p & _ & Hp & Hall)].
+      - left. intros q Hq. exfalso. exact (Hno q Hq).
+      - destruct (le_lt_dec 2 (length (successors st p))) as [D|D].
+        + right. exists p. now split.
+        + left. intros q Hq. rewrite (Hall q Hq). unfold divides. lia. }
+    destruct Hcase as [Hpar|(q & Hq & Dq)].
+    + apply (W_trk_del_node st st' n Hd Hf Ht Hd' N' E'); [|exact Hpar]. intros m Hm. now rewrite (Trk5 m Hm), (Ta Hpar).
+    + destruct (Tb q Hq Dq) as (s1 & Hd1 & Hf1 & Wt1 & N1 & E1 & T1).
+      apply (W_trk_del_node s1 st' n Hd1 Hf1 Wt1 Hd').
+      * intros x. rewrite N', N1. tauto.
+      * intros x y. rewrite E', E1. split.
+        -- intros [(A & X & Y)|(B1 & B2 & _)]; [left; tauto|]. exfalso. apply B2. now rewrite (wf_in _ Hf x q n B1 Hq).
+        -- intros [((A & _) & X & Y)|(B1 & _)]; [left; tauto|]. exfalso. apply E1 in B1. now apply (proj2 B1).
+      * intros m Hm. now rewrite (Trk5 m Hm), T1.
+      * intros p Hp. exfalso. apply E1 in Hp. now apply (proj2 Hp).
+  - (* W_lin *)
+    intros Wl. constructor; [exact L1'|].
+    assert (Hcls : forall x, root st' x -> x <> n /\ is_node st x /\
+              ((root st x /\ lin s4 x = lin st x) \/
+               (In x os /\ exists l, lin s4 x = Some l /\ max_lin (bk st) < l) \/
+               (root st n /\ (exists r, successors st n = x :: r) /\ lin s4 x = lin st n))).
+    { intros x [Nx Rx]. apply N' in Nx. destruct Nx as [Nx Hxn]. split; [exact Hxn|]. split; [exact Nx|].
+      assert (Rx4 : forall p, ~ edge s4 p x).
+      { intros p Hp. apply (Rx p). apply E'. now apply E4. }
+      destruct (parent_dec st x Hd) as [[q Hq]|Hnone].
+      - assert (q = n) as ->.
+        { destruct (Z.eq_dec q n) as [E|Hqn]; [exact E|]. exfalso. apply (Rx q). apply E'. left. auto. }
+        assert (Hnb : forall p, ~ udn_bridge st n p x) by (intros p B; apply (Rx p); apply E'; now right).
+        destruct (in_dec Z.eq_dec x os) as [Hi|Hi].
+        + right. left. split; [exact Hi|]. apply (Ln x x Hi). apply rt_refl.
+        + destruct (Hos2 x Hq Hnb) as [Hi'|[Hnop Hr]]; [contradiction|]. right. right.
+          split; [split; [exact Nn|exact Hnop]|]. split; [exact Hr|].
+          rewrite Lf; [symmetry; now apply L1|]. intros o Ho Ro. apply Hi. now rewrite <- (reach_to_root s4 x o Rx4 Ro).
+      - left. split; [split; [exact Nx|exact Hnone]|]. apply Lf. intros o Ho Ro.
+        rewrite (reach_to_root s4 x o Rx4 Ro) in Ho. exact (Hnone n (Hos1 x Ho)). }
+    assert (Hfresh : forall x l, is_node st x -> lin st x = Some l -> max_lin (bk st) < l -> False).
+    { intros x l Nx El Hl. pose proof (lin_bounded st Wb x l Nx El). lia. }
+    intros x y Hx Hy Exy. destruct (Hcls x Hx) as (Hxn & Nx & Kx). destruct (Hcls y Hy) as (Hyn & Ny & Ky).
+    rewrite (Lin5 x Hxn), (Lin5 y Hyn) in Exy.
+    destruct Kx as [[Rx Ex]|[[Ix (lx & Ex & Hlx)]|(Rn & [rx Sx] & Ex)]];
+    destruct Ky as [[Ry Ey]|[[Iy (ly & Ey & Hly)]|(Rn' & [ry Sy] & Ey)]].
+    + apply (wl2 _ Wl x y Rx Ry). congruence.
+    + exfalso. apply (Hfresh x ly Nx); [congruence|exact Hly].
+    + exfalso. apply Hxn. apply (wl2 _ Wl x n Rx Rn'). congruence.
+    + exfalso. apply (Hfresh y lx Ny); [congruence|exact Hlx].
+    + apply (Ld x y x y Ix Iy); [apply rt_refl|apply rt_refl|exact Exy].
+    + exfalso. apply (Hfresh n lx Nn); [congruence|exact Hlx].
+    + exfalso. apply Hyn. apply (wl2 _ Wl y n Ry Rn). congruence.
+    + exfalso. apply (Hfresh n ly Nn); [congruence|exact Hly].
+    + congruence.
+Qed.
+
+(* ---- corollaries, one invariant at a time ---- *)
+(* C06: the lookups stay the group-by of the id attributes *)
+Corollary udn_core_keeps_book st n pxo a st' :
+  cfg_ok st -> W_dict st -> W_forest st -> W_trk st -> (forall u v, edge st u v -> lin st u = lin st v) -> W_book st ->
+  user_delete_node_core st n pxo = Ok a st' -> cfg_ok st' /\ W_book st'.
+Proof.
+  intros C Hd Hf Ht L1 Wb H. destruct (udn_core_ids st n pxo a st' (Build_LB st C Hd Hf L1 Wb) Ht H) as ([C' _ _ _ Wb'] & _). now split.
+Qed.
+(* C04: every track id still labels one segment *)
+Corollary udn_core_keeps_trk st n pxo a st' :
+  cfg_ok st -> W_dict st -> W_forest st -> W_trk st -> (forall u v, edge st u v -> lin st u = lin st v) -> W_book st ->
+  user_delete_node_core st n pxo = Ok a st' -> W_trk st'.
+Proof. intros C Hd Hf Ht L1 Wb H. apply (udn_core_ids st n pxo a st' (Build_LB st C Hd Hf L1 Wb) Ht H). Qed.
+(* C05: every lineage id still labels one tree *)
+Corollary udn_core_keeps_lin st n pxo a st' :
+  cfg_ok st -> W_dict st -> W_forest st -> W_trk st -> W_lin st -> W_book st ->
+  user_delete_node_core st n pxo = Ok a st' -> W_lin st'.
+Proof.
+  intros C Hd Hf Ht Wl Wb H.
+  now apply (udn_core_ids st n pxo a st' (Build_LB st C Hd Hf (wl1 _ Wl) Wb) Ht H).
+Qed.
+
+(* the graph-level part of WF (everything but the segmentation conjuncts) as one bundle *)
+Record GWF (st : state) : Prop := {
+  gw_cfg : cfg_ok st; gw_dict : W_dict st; gw_forest : W_forest st; gw_trk : W_trk st; gw_lin : W_lin st; gw_book : W_book st
+}.
+Lemma WF_GWF st : WF st -> GWF st.
+Proof. intros [A B C D E F _ _]. now constructor. Qed.
+
+Theorem udn_core_GWF st n pxo a st' : GWF st -> user_delete_node_core st n pxo = Ok a st' -> GWF st'.
+Proof.
+  intros [C Hd Hf Ht Wl Wb] H.
+  destruct (udn_core_ids st n pxo a st' (Build_LB st C Hd Hf (wl1 _ Wl) Wb) Ht H) as ([C' Hd' Hf' _ Wb'] & Ht' & Wl').
+  constructor; auto.
+Qed.
+
+Lemma GWF_same s s' : g s' = g s -> ft s' = ft s -> bk s' = bk s -> GWF s -> GWF s'.
+Proof.
+  intros Eg Ef Eb [C Hd Hf Ht Wl Wb].
+  destruct (EditLin.LWF_same s s' Eg Ef Eb (EditLin.Build_LWF s C Hd Hf Wl Wb)) as [C' Hd' Hf' Wl' Wb'].
+  constructor; auto. now apply (W_trk_same_g s).
+Qed.
+
+(* the public entry point keeps the graph-level invariant *)
+Theorem udn_GWF st n pxo top a st' : GWF st -> user_delete_node st n pxo top = Ok a st' -> GWF st'.
+Proof.
+  intros W H. destruct (udn_top_inv st n pxo top a st' H) as (s & Hc & ->).
+  pose proof (udn_core_GWF st n pxo a s W Hc) as W'. destruct top; [|exact W'].
+  destruct (finish_top_fields s a None) as (Eg & _ & Ef & Eb & _). now apply (GWF_same s).
+Qed.
+
+(* on a well-formed state the action is accepted on every node (pixels computed from the array) *)
+Theorem udn_WF_accepted st n top : WF st -> is_node st n -> exists a st', user_delete_node st n None top = Ok a st' /\ GWF st'.
+Proof.
+  intros W Nn. pose proof (WF_GWF st W) as G. destruct G as [C Hd Hf Ht Wl Wb].
+  destruct (udn_accepted_wseg st n top Hd Hf Ht Wb (w_seg _ W) Nn) as (a & st' & H).
+  exists a, st'. split; [exact H|]. exact (udn_GWF st n None top a st' (WF_GWF st W) H).
+Qed.
+
+(* ---- which ids change ---- *)
+(* a path of the state before DeleteNode that starts at a child of n stays in the old edges *)
+Lemma reach_below_child st s4 n o m : W_forest st ->
+  (forall x y, edge s4 x y <-> (edge st x y /\ x <> n /\ y <> n) \/ udn_bridge st n x y) ->
+  edge st n o -> reach s4 o m -> reach st o m.
+Proof.
+  intros Hf E4 Ho R. apply clos_rt_rtn1 in R. induction R as [|y z Hyz _ IH]; [apply rt_refl|].
+  eapply rt_trans; [exact IH|]. apply rt_step. apply E4 in Hyz. destruct Hyz as [(A & _)|(B1 & _)]; [exact A|]. exfalso.
+  pose proof (wf_time _ Hf _ _ Ho). pose proof (wf_time _ Hf _ _ B1).
+  destruct (EditLin.reach_time st Hf o y IH) as [->|L]; lia.
+Qed.
+
+Theorem udn_core_id_frame st n pxo a st' : GWF st -> user_delete_node_core st n pxo = Ok a st' ->
+  (* lineage ids change below n only *)
+  (forall m, m <> n -> ~ reach st n m -> lin st' m = lin st m) /\
+  (* track ids change only when the parent of n divides (the sibling joins the parent's track) *)
+  ((forall q, edge st q n -> ~ divides st q) -> forall m, m <> n -> trk st' m = trk st m).
+Proof.
+  intros [C Hd Hf Ht Wl Wb] H. pose (L := Build_LB st C Hd Hf (wl1 _ Wl) Wb).
+  destruct (udn_core_ok_inv st n pxo a st' Hd Hf Ht Wb H) as (Nn & _).
+  destruct (udn_prefix_rich st n L Ht Nn) as (acts & s4 & os & H4 & L4 & G4 & E4 & Ta & _ & _ & Hos1 & _ & Lf & _).
+  pose proof L4 as [_ Hd4 Hf4 _ _].
+  destruct (udn_core_ok_unfold st n pxo a st' H) as (_ & _ & acts' & s4' & b & H4' & H5). rewrite H4 in H4'. injection H4' as <- <-.
+  destruct (do_del_node_WS s4 n pxo b st' Hd4 Hf4 H5) as (_ & _ & _ & _ & _ & A5 & _).
+  split.
+  - intros m Hm Hr. unfold lin at 1, zattr. rewrite (A5 m KLin Hm). fold (zattr s4 m KLin). fold (lin s4 m).
+    apply Lf. intros o Ho Ro. apply Hr. eapply rt_trans; [apply rt_step; exact (Hos1 o Ho)|].
+    exact (reach_below_child st s4 n o m Hf E4 (Hos1 o Ho) Ro).
+  - intros Hpar m Hm. unfold trk at 1, zattr. rewrite (A5 m KTrack Hm). fold (zattr s4 m KTrack). fold (trk s4 m). now apply Ta.
+Qed.
+
+(* ---- the public entry point: which ids change, and the history ---- *)
+Theorem udn_id_frame st n pxo top a st' : GWF st -> user_delete_node st n pxo top = Ok a st' ->
+  (forall m, m <> n -> ~ reach st n m -> lin st' m = lin st m) /\
+  ((forall q, edge st q n -> ~ divides st q) -> forall m, m <> n -> trk st' m = trk st m).
+Proof.
+  intros W H. destruct (udn_top_inv st n pxo top a st' H) as (s & Hc & ->).
+  destruct (udn_core_id_frame st n pxo a s W Hc) as [Fl Ft].
+  assert (Eg : g (if top then finish_top s a None else s) = g s) by (destruct top; [apply finish_top_fields|reflexivity]).
+  split.
+  - intros m Hm Hr. rewrite (EditLin.lin_same_g s _ m Eg). now apply Fl.
+  - intros Hpar m Hm. rewrite (same_g_trk s _ Eg). now apply Ft.
+Qed.
+
+(* at top level an accepted deletion is recorded (dropping the redo tail) and the refresh signal fires once, without payload *)
+Theorem udn_top_history st n pxo a st' : W_dict st -> W_forest st -> W_trk st -> W_book st ->
+  user_delete_node st n pxo true = Ok a st' ->
+  rlog st' = rlog st ++ [None] /\ redo_stack st' = [] /\
+  undo_stack st' = match redo_stack st with [] => undo_stack st ++ [a] | _ :: _ => (undo_stack st ++ redo_stack st) ++ [a] end.
+Proof.
+  intros Hd Hf Ht Wb H. destruct (udn_top_inv st n pxo true a st' H) as (s & Hc & ->).
+  destruct (udn_core_ok_inv st n pxo a s Hd Hf Ht Wb Hc) as (_ & _ & _ & _ & _ & _ & _ & _ & _ & (_ & Eu & Er & El & _)).
+  unfold finish_top, emit, hist_add. rewrite Er, Eu. destruct (redo_stack st); cbn; rewrite El; auto.
+Qed.
+(* a nested call (top = false) touches neither the history nor the signal log *)
+Theorem udn_nested_history st n pxo a st' : W_dict st -> W_forest st -> W_trk st -> W_book st ->
+  user_delete_node st n pxo false = Ok a st' ->
+  rlog st' = rlog st /\ redo_stack st' = redo_stack st /\ undo_stack st' = undo_stack st.
+Proof.
+  intros Hd Hf Ht Wb H. destruct (udn_top_inv st n pxo false a st' H) as (s & Hc & ->).
+  destruct (udn_core_ok_inv st n pxo a s Hd Hf Ht Wb Hc) as (_ & _ & _ & _ & _ & _ & _ & _ & _ & (_ & Eu & Er & El & _)). auto.
 Qed.
